@@ -3,9 +3,9 @@ sys.path.insert(0, os.path.dirname(os.path.abspath(__file__)))
 import build_common as bc
 
 ID = "C05"
-LEVEL = "other"
-COQ_TARGETS = ["Props/Properties_C05.vo", "Props/Properties_C05_spec.vo", "Extract/ExtractBuild.vo"]
-PROPS_FILES = ["Props/Properties_C05.v", "Props/Properties_C05_spec.v"]
+LEVEL = "proof"
+COQ_TARGETS = ["Props/Properties_C05.vo", "Props/Properties_C05_spec.vo", "Props/Properties_C05_heap.vo", "Extract/ExtractBuild.vo"]
+PROPS_FILES = ["Props/Properties_C05.v", "Props/Properties_C05_spec.v", "Props/Properties_C05_heap.v"]
 RUNS = [dict(name="valid", harness="c04", driver="build", model_ml="build_model", harness_args=["-mode", "c05"])]
 EXPLANATION = ("Strict validity predicate valid_message (Coq, from the encoding document, independent of the reader model) and a spec-style tree decoder are executed on the bytes Message.Marshal produced for every generated program and compared with the library's own tree and the written value tree; theorems: allocation half of heap_inv and its preservation by all pointer-writing ops, pointer resolution.")
 TRUSTED = ["models coq/Core/Builder.v (alloc, arenas, nextAlloc, constructors, setters, writePtr, copyStruct), coq/Core/BuildOps.v "
@@ -22,8 +22,22 @@ ASSUMPTIONS = ["64-bit int; segments < 2^32 bytes, segment count < 2^32; bytes a
                "a failed pointer-writing / allocating op ends the compared run (the model keeps no state for a failed op)",
                "fuel of write_ptr/copy_struct: theorems are about Ok results, which are never produced by fuel exhaustion"]
 TECHNIQUE = "Coq proof over an executable model + extracted-model/implementation differential run"
-LEVEL_TEXT = ('Partial proof + differential run. Proved for all arenas/capacities: allocated regions are zeroed, aligned, inside len<=cap and pairwise disjoint; segments stay word aligned and only grow under SetPtr/Set/SetRoot/SetStruct/CopyFrom with all copy branches; every placed pointer resolves with well-formed landing pads; placed_struct_is_spec_valid: the struct pointer just written is resolved by the specification decoder (coq/Spec) to exactly its target, inside the message; heap_inv_partial: an invariant over all op lists of the interpreter (well-formed segments + sound handle pool) in every reachable state. The full heap_inv (every reachable state satisfies valid_message) is checked by executing the extracted valid_message + spec tree on the real Marshal bytes of every program.')
-LEVEL_NOTE = ("Missing for level proof: heap_inv as an invariant over op lists implying valid_message = VOk (needs the abstract object table of builder_refines); marshal_header_ok is C14's.")
+LEVEL_TEXT = ('Proof for the builder incl. cross-message copies + differential run for everything. C05_heap_inv_sublang (HeapOps.v, HeapCopy.v, HeapSteps.v, HeapValid.v): every reachable state of every program in every arena configuration with a root word satisfies valid_message = VOk (ghost object table; every pool handle is a view of it; hinv preserved by every op incl. all copy paths of writePtr/copyStruct, C05_copy_all; hinv implies valid_message). hinv (HeapInv.v): every pointer slot and the root hold the null word, the inline empty struct, a capability pointer or exactly the words the placement switch stores for one table object (structs, lists of every kind incl. composite lists with their tag word), regions inside their segments and pairwise disjoint. Also proved for all arenas/capacities and ALL ops incl. cross-message: allocated regions are zeroed, aligned, inside len<=cap and pairwise disjoint; segments stay word aligned and only grow; every placed pointer resolves with well-formed landing pads; placed_struct_is_spec_valid; heap_inv_partial. All ops are also checked by executing the extracted valid_message + spec tree on the real Marshal bytes of every program.')
+LEVEL_NOTE = ("Theorem C05_heap_inv_sublang (valid_message = VOk in every reachable state, all arena configurations with a "
+              "root word, while the message has < 2^32 segments) covers EVERY op of the builder: all constructors incl. "
+              "NewCompositeList; all data setters; all pointer setters with any handle as source - Struct.SetPtr, "
+              "PointerList.Set, Message.SetRoot, List.SetStruct, Struct.CopyFrom - incl. every copy path of writePtr/copyStruct "
+              "inside the message (C05_copy_all) AND from another message (C05_copy_src_all: any source bytes 0..255, no "
+              "validity of the source assumed; capabilities appended to the capability table); capabilities; the "
+              "handle-creating read ops Root, Struct.Ptr, PointerList.At, List.Struct on both messages; reopen; the read-only "
+              "accessors. The executable predicate sub_prog rejects nothing but arguments outside the Go types' ranges. "
+              "Premises besides the segment bound: source bytes are 0..255 (msg_ok), the source is read with the repaired "
+              "composite-tag check (cfg_strict), and dst_run: data setters are applied to handles of the message under "
+              "construction (a data setter on a SOURCE handle can rewrite the tag word of an overlapping composite list in a "
+              "hostile source after its List handle was read; copying that list then yields an inconsistent composite list - "
+              "see docs/C05.md). NOT covered by the theorem, only by the runs (extracted valid_message + spec decoder on the "
+              "real bytes of every generated program): data setters on source handles followed by copies, arenas without a "
+              "root word. marshal_header_ok is C14's.")
 DESIGN_REF = "DESIGN.md section 6, C05"
 
 classify = bc.classify
@@ -51,3 +65,15 @@ _l0_prev_generate = globals().get("generate")
 def generate(res):
     notes = list(_l0_prev_generate(res) or []) if (_l0_prev_generate and _l0_prev_generate is not _l0.generate) else []
     return notes + list(_l0.generate(res) or [])
+
+# ---- independent decoder (coq/Spec, written from the encoding document) on the Marshal bytes of
+# ---- messages built by its own generator: "an independent decoder reconstructs exactly the tree
+# ---- that was written" (docs/C05-spec.md)
+import c05_spec_run as _sr
+RUNS = list(RUNS) + [_sr.RUN]
+COQ_TARGETS = list(COQ_TARGETS) + _sr.COQ_TARGETS
+PROPS_FILES = list(PROPS_FILES) + _sr.PROPS_FILES
+TRUSTED = list(globals().get("TRUSTED", [])) + _sr.TRUSTED
+classify = _sr.wrap_classify(classify)
+violates = _sr.wrap_violates(violates)
+impl_violation = _sr.wrap_impl_violation(impl_violation)
